@@ -18,9 +18,10 @@ impl Shard {
     /// true iff the next case (in global enumeration order) belongs to this shard
     #[inline]
     pub fn mine(&mut self) -> bool {
-        let r = self.counter % self.n == self.idx;
+        // scrambled assignment so that periodic inner loops do not line up with the shard count
+        let h = (self.counter.wrapping_mul(0x9E37_79B9_7F4A_7C15) >> 29) % self.n;
         self.counter += 1;
-        r
+        h == self.idx
     }
     pub fn is_first(&self) -> bool {
         self.idx == 0
